@@ -2799,13 +2799,25 @@ fn enumerated(w: &mut dyn Write, kind: &'static str) {
         }
     }
 
-    // `inner_node_capacity = 0` is documented as "no limit"
-    p(&format!("case enum-cap0-{kind}"));
-    p(&format!("mgr {kind} vars=2 cap=0"));
-    for l in ["const t T", "var a 0", "var b 1", "op g and a b", "show g"] {
-        p(l);
+    // `inner_node_capacity = 0` is documented as "no limit" (only generated while the
+    // documentation of `oxidd_<kind>_manager_new` says so)
+    if cap0_documented_unlimited(kind) {
+        p(&format!("case enum-cap0-{kind}"));
+        p(&format!("mgr {kind} vars=2 cap=0"));
+        for l in ["const t T", "var a 0", "var b 1", "op g and a b", "show g"] {
+            p(l);
+        }
+        p("end");
     }
-    p("end");
+}
+
+/// does the doc comment of `oxidd_<kind>_manager_new` promise that capacity 0 means "no limit"?
+fn cap0_documented_unlimited(kind: &str) -> bool {
+    let src = std::fs::read_to_string(format!("/repo/crates/oxidd-ffi-c/src/{kind}.rs")).unwrap_or_default();
+    let Some(end) = src.find(&format!("fn oxidd_{kind}_manager_new(")) else { return false };
+    let start = src[..end].rfind("\n\n").unwrap_or(0);
+    let doc: Vec<&str> = src[start..end].lines().filter_map(|l| l.trim().strip_prefix("///")).flat_map(|l| l.split_whitespace()).collect();
+    doc.join(" ").contains("`0` means no limit")
 }
 
 fn generate(cfg: &GenCfg, rng: &mut Rng, w: &mut dyn Write) {
@@ -2816,7 +2828,7 @@ fn generate(cfg: &GenCfg, rng: &mut Rng, w: &mut dyn Write) {
         for k in kinds {
             enumerated(w, k);
         }
-        let cases = if cfg.thorough { 1500 * scale } else { 150 * scale };
+        let cases = if cfg.thorough { 12000 * scale } else { 600 * scale };
         for i in 0..cases {
             let kind = kinds[i % 3];
             let n = rng.range(3, 6) as u32;
@@ -2824,7 +2836,7 @@ fn generate(cfg: &GenCfg, rng: &mut Rng, w: &mut dyn Write) {
             random_case(rng, w, &format!("rnd-{kind}-{i}"), kind, n, len, None);
         }
     } else if suite == "oom" {
-        let cases = if cfg.thorough { 600 * scale } else { 90 * scale };
+        let cases = if cfg.thorough { 6000 * scale } else { 300 * scale };
         for i in 0..cases {
             let kind = kinds[i % 3];
             let n = rng.range(3, 5) as u32;
